@@ -172,7 +172,11 @@ class FixedArray(Array, Generic[ValuesType]):
 
     # Equality -------------------------------------------------------------------------------------
     def __eq__(self, other: Any) -> bool:
-        return Array.__eq__(self, other) and self.dimension == other.dimension
+        return (
+            isinstance(other, FixedArray)
+            and Array.__eq__(self, other)
+            and self.dimension == other.dimension
+        )
 
     def __reduce__(self) -> Any:
         """
